@@ -217,7 +217,7 @@ func cwInv(cw *CodeWriter) bool {
 // pointsAt: mapping i points at the source position (and carries the name) that was requested.
 func pointsAt(cw *CodeWriter, i int, d deferredMapping) bool {
 	return sourcemap.MappingAt(cw.Mapper, i).SourceLine == d.line && sourcemap.MappingAt(cw.Mapper, i).SourceColumn == d.column && sourcemap.MappingAt(cw.Mapper, i).HasName == d.named &&
-		implies(d.named, sourcemap.NameAt(cw.Mapper, sourcemap.MappingAt(cw.Mapper, i).NameIndex) == d.name)
+		(!d.named || sourcemap.NameAt(cw.Mapper, sourcemap.MappingAt(cw.Mapper, i).NameIndex) == d.name)
 }
 
 // startOf: the generated position of mapping i.
